@@ -40,6 +40,26 @@ class CheckError(Exception):
     pass
 
 
+class locked:
+    """Advisory file lock (flock) under build/locks: checks may be run concurrently, and several of them build the
+    same Coq files, extracted models or harness binaries (C02 uses C01's model, C07/C16/C19 import C15, ...)."""
+    def __init__(self, name):
+        d = os.path.join(BUILD, "locks")
+        os.makedirs(d, exist_ok=True)
+        self.path = os.path.join(d, name.replace("/", "_") + ".lock")
+
+    def __enter__(self):
+        import fcntl
+        self.f = open(self.path, "w")
+        fcntl.flock(self.f, fcntl.LOCK_EX)
+        return self
+
+    def __exit__(self, *a):
+        import fcntl
+        fcntl.flock(self.f, fcntl.LOCK_UN)
+        self.f.close()
+
+
 def _limit_as(gb):
     """preexec_fn: cap the address space of a Coq process so that a runaway proof search dies instead of
     taking the machine down (never used for the Go toolchain, which needs a large virtual address space)."""
@@ -105,7 +125,8 @@ def go_build(pkg, out_name=None, race=False, timeout=1200):
         cmd.append("-race")
         env["CGO_ENABLED"] = "1"
     cmd += ["-o", out, "./" + pkg]
-    rc, o = sh(cmd, cwd=HARNESS, env=env, timeout=timeout)
+    with locked("go_" + os.path.basename(out)):
+        rc, o = sh(cmd, cwd=HARNESS, env=env, timeout=timeout)
     if rc != 0:
         return None, o
     return out, None
@@ -143,9 +164,10 @@ def coq_prepare(prop):
 def coq_make(targets, prop, timeout=3000):
     """Full .vo build of the given targets (paths relative to coq/, .vo) with the property's own
     Makefile (coq/Makefile.<prop>: lib + the property's directory + imported ones). Incremental."""
-    coq_prepare(prop)
-    rc, o = sh(["make", "-f", "Makefile." + prop, "-j%d" % NCPU] + list(targets), cwd=COQ, timeout=timeout,
-               mem_gb=COQ_MEM_GB)
+    with locked("coq"):
+        coq_prepare(prop)
+        rc, o = sh(["make", "-f", "Makefile." + prop, "-j%d" % NCPU] + list(targets), cwd=COQ, timeout=timeout,
+                   mem_gb=COQ_MEM_GB)
     return rc == 0, o
 
 
@@ -243,6 +265,11 @@ def forbidden_words(dirs):
 
 # --------------------------------------------------------------------------- extraction + OCaml
 def build_model(prop, extract_v, driver_ml, timeout=1800):
+    with locked("ocaml_" + prop):
+        return _build_model(prop, extract_v, driver_ml, timeout)
+
+
+def _build_model(prop, extract_v, driver_ml, timeout=1800):
     """Runs coq/<prop>/<extract_v> (Separate Extraction, ExtrOcamlBasic only) in
     build/ocaml/<prop>/, compiles the extracted modules with ocaml/vx.ml and the driver.
     Returns (exe, None) or (None, log).  Rebuilt only when an input changed."""
@@ -275,7 +302,10 @@ def build_model(prop, extract_v, driver_ml, timeout=1800):
         return exe, None
     for f in os.listdir(d):
         if f.endswith((".ml", ".mli", ".cmi", ".cmx", ".o", ".cmo")) or f == "modeld":
-            os.remove(os.path.join(d, f))
+            try:
+                os.remove(os.path.join(d, f))
+            except FileNotFoundError:
+                pass
     deps = []
     for m in re.finditer(r"From\s+V\.(\w+)\s+Require\s+(?:Import|Export)\s+([^.]+)\.", src_txt):
         for nm in m.group(2).split():
